@@ -1827,7 +1827,7 @@ func main() {
 	debug.SetMaxStack(64 << 20)
 	e := common.New(11)
 	runCorpus(e)
-	n := e.Pick(7000, 100000)
+	n := e.Pick(5000, 100000)
 	for i := 0; i < n; i++ {
 		variant := 0
 		if i%25 == 24 {
